@@ -117,7 +117,7 @@ HISTORY = {
     "C15/H5-m2": ("missed", "generations in which the application starts no function"),
     "C08/H8-m1": ("missed", "NOT CAUGHT by C08's check; reported by C10's check as a data race (awaitBatch vs writeMessages), which is what it is"),
     "C08/H8-m2": ("missed", "BatchTimeout below one millisecond (wsim BatchTimeoutUs)"),
-    "C12/H8-m1": ("missed", "NOT CAUGHT: refreshes up to 1.5 x MetadataTTL apart; C12 treats a cache that is late by more than TTL + 300 ms but catches up within 10 x TTL + 2 s as inconclusive, because on a shared machine that lateness cannot be told from scheduling delay"),
+    "C12/H8-m1": ("missed", "unit TestCadence (round 10): MetadataTTL of 2-3 s, the leader moves right after a metadata answer, a request started TTL + 500 ms later has to reach the new leader"),
     "C12/H8-m2": ("missed", "a group's coordinator moves to a broker that was just added, before the transport has heard of it"),
     "C09/H9-m1": ("missed", "WriteMessages without messages after Close"),
     "C09/H9-m2": ("missed", "stall kind metadata-after-create (a CreateTopics round trip waits for the topic to appear while the brokers stop serving metadata)"),
@@ -166,7 +166,7 @@ HISTORY = {
     "C15/J4-m2": ("missed", "ending event heartbeat-silent (a heartbeat the coordinator never answers) + ConsumerGroupConfig.Timeout as a case parameter"),
     "C16/J5-m1": ("missed", "the reference zstd decoder keeps the 128 MiB window limit of libzstd / zstd-jni"),
     "C16/J5-m2": ("missed", "NOT CAUGHT by C16's check (a data race without wrong bytes; its race-built unit reports races as infrastructure failures, thorough tier only); reported by C10's check (TestCodecPrograms)"),
-    "C07/J7-m2": ("missed", "NOT CAUGHT (quick and thorough tier): needs another submitter (or the batch timer) between the release of the partition lock and the queueing of a long run of sealed batches, a window of microseconds without a schedule point"),
+    "C07/J7-m2": ("missed", "unit TestFlood (round 10): one call that seals 400-3000 batches for one partition and leaves a partial batch open under a BatchTimeout of 5-80 microseconds, with co-submitters hammering short calls"),
     "C18/J7-m2": ("missed", "brokers that do not list SaslHandshake in their ApiVersions answer (Transport entries)"),
     "C19/J8-m2": ("missed", "NOT CAUGHT by C19's check (its worlds do not change while they are queried); reported by C12's check (coordinator moves)"),
     "C09/J9-m2": ("missed", "reader stratum: the queue is full to the last slot when the partition reader has an error to report (broker state error-fetch, QueueCap)"),
@@ -174,6 +174,18 @@ HISTORY = {
     "C06/J6-m2": ("missed", "NOT CAUGHT by C06's check; reported by C04's check after the addition that the bytes Marshal returns stay intact across further Marshal calls"),
     "C17/J6-m1": ("missed", "NOT CAUGHT by C17's check (no SASL in its scenarios); reported by C18's check (fault cut-raw-auth1: the raw answer of an authenticate round ends early)"),
     "C11/J10-m2": ("missed", "NOT CAUGHT: like C11/I1-m2 -- after an error code followed by surplus bytes the Conn stays open and misaligned, later operations still fail unless the surplus is crafted as the answer with the next correlation id"),
+    # round 10 (K): one change per property
+    "C14/K10-m1": ("missed", "partitions list replicas (Partition.Replicas / Isr) on brokers of other racks than the leader's, also for leaders without a rack"),
+    "C15/K8-m1": ("missed", "functions that take longer to wind down (350-650 ms) than the group's RebalanceTimeout (300 ms)"),
+    "C10/K9-m1": ("missed", "client programs over a Transport with a Resolver (variant resolver)"),
+    "C17/K2-m1": ("missed", "stall cases with the operation's own deadline set once before the call (DL op-before): a deadline set while the call runs reaches the socket through the stale connection pointer of the write deadline and ended the read anyway"),
+    "C05/K5-m1": ("missed", "header values longer than 64 KiB in generated records (refcodec.GenRecords)"),
+    "C18/K9-m1": ("missed", "addresses whose port is a service name (b1.fake:kafka) for the Dialer entries; exposed F31 (fixed d4bc167: the refused dial left its connection open). The stored patch applies to the tree before that fix only (same lines); evaluated against fbb5cd3"),
+    "C03/K3-m1": ("missed", "coordinators that list the partitions of an OffsetFetch answer in reverse order (fakecluster.ReverseOffsetFetchOrder)"),
+    "C16/K5-m1": ("missed", "rule read-after-eof: the Read after the one that reported the end of the stream returns (0, io.EOF)"),
+    "C04/K4-m1": ("missed", "NOT CAUGHT by C04's check (record offsets are not part of a frame's fields); reported by C05's check (TestFetch / TestPool / TestMutatedSets: offsets of records in compacted v2 batches)"),
+    "C06/K6-m1": ("missed", "NOT CAUGHT: the bytes a group operation of the Conn returns alias the Conn's read buffer; the exported callers (ConsumerGroup) decode them before the next exchange, only the unexported syncGroup / joinGroup hand them out raw"),
+    "C09/K3-m1": ("missed", "NOT CAUGHT: CommitMessages in interval mode with a full commit queue ignores its context (needs QueueCapacity commits parked while no generation drains them)"),
 }
 
 
